@@ -195,8 +195,8 @@ func (opts *rootOpts) newRegClient() *regclient.RegClient {
 	for _, h := range opts.hosts {
 		hKV, err := strparse.SplitCSKV(h)
 		if err != nil {
+			// the host string includes the password, do not log it
 			opts.log.Warn("unable to parse host string",
-				slog.String("host", h),
 				slog.String("err", err.Error()))
 		}
 		host := config.Host{
@@ -209,7 +209,7 @@ func (opts *rootOpts) newRegClient() *regclient.RegClient {
 			err := hostTLS.UnmarshalText([]byte(hKV["tls"]))
 			if err != nil {
 				opts.log.Warn("unable to parse tls setting",
-					slog.String("host", h),
+					slog.String("host", hKV["reg"]),
 					slog.String("tls", hKV["tls"]),
 					slog.String("err", err.Error()))
 			} else {
